@@ -36,6 +36,25 @@ MUTATORS = {
 }
 STEREO_SLOTS = ("_atom_stereo", "_bond_stereo", "_atom_stereo_change",
                 "_bond_stereo_change")
+# read-only API of the pinned tree (frozen): a method that is neither here nor
+# in MUTATORS is new; it is analysed and listed in the evidence, but a write
+# effect of a NEW method is not a violation (it may be a new mutator)
+READERS = {
+    "__eq__", "__hash__", "__len__", "__repr__", "__str__",
+    "_ipython_display_", "_to_rdmol", "_ts", "active_atoms", "atom_stereo",
+    "atom_stereo_changes", "atom_types", "atoms", "atoms_with_attributes",
+    "bond_stereo", "bond_stereo_changes", "bonded_to", "bonds",
+    "bonds_with_attributes", "connected_components", "connectivity_matrix",
+    "copy", "enantiomer", "get_atom_attribute", "get_atom_attributes",
+    "get_atom_stereo", "get_atom_stereo_change", "get_atom_type",
+    "get_bond_attribute", "get_bond_attributes", "get_bond_stereo",
+    "get_bond_stereo_change", "get_broken_bonds", "get_fleeting_bonds",
+    "get_formed_bonds", "has_atom", "has_bond", "is_isomorphic",
+    "is_stereo_valid", "n_atoms", "neighbors", "node_connected_component",
+    "product", "reactant", "relabel_atoms", "reverse_reaction", "stereo",
+    "subgraph", "to_rdmol",
+}
+READ_PREFIXES = ("get_", "has_", "is_", "to_", "n_", "_to_")
 
 
 def reader_methods(prog: Program, K: str) -> list[str]:
@@ -97,7 +116,14 @@ def check_readonly(prog: Program, res: Result) -> None:
                 res.error(f"R-READONLY {tag}: interpreter recursion")
                 continue
             n += 1
-            report_events(res, I, tag, fi.loc())
+            if name in READERS or name.startswith(READ_PREFIXES):
+                report_events(res, I, tag, fi.loc())
+            elif I.events:
+                res.notes.append(f"new method {tag} (not in the frozen reader "
+                                 f"list) writes {sorted({e.slot for e in I.events})}"
+                                 ": treated as a mutator, not reported")
+            else:
+                res.ok("R-READONLY", tag + " (new method)", fi.loc())
     # derivation operations and module-level readers
     for label, K, G, thunk in operations(prog):
         I = Interp(prog, max_depth=12)
